@@ -154,6 +154,13 @@ func Includes(quick bool) Family {
 			}
 		}
 	}
+	// a Return() that reaches a state only through Include, as the last rule and with rules after it
+	retState := []m.Rule{r("U", `b`), ret()}
+	for _, root := range seqs(rootMenu, n) {
+		for _, s3 := range [][]m.Rule{{inc("R")}, {inc("R"), r("Junk", `[ab]+`)}, {r("C", `a`), inc("R")}, {inc("S1"), inc("R")}} {
+			defs = append(defs, m.Def{"Root": root, "S1": {r("B", `b`), pop("Close", `\)`)}, "S3": s3, "R": retState})
+		}
+	}
 	return Family{Name: "include", Defs: defs, Alphabet: []string{"a", "b", "(", ")"}, MaxLen: lenFor(quick, 4, 6)}
 }
 
